@@ -1159,6 +1159,14 @@ class Explorer:
             return [((not b) if b is not RAISE else RAISE, s) for b, s in self.cond(node.operand, st)]
         if isinstance(node, ast.Call) and isinstance(node.func, ast.Name) and node.func.id == 'bool' and len(node.args) == 1 and not node.keywords:
             return self.cond(node.args[0], st)          # the truth of bool(e) is the truth of e
+        if isinstance(node, ast.Name) and st.env.get(node.id, ('?',))[0] == 'deferred-test':
+            _, tnode, vers, ep = st.env[node.id]
+            if vers == tuple(sorted(st.ver.items())) and ep == st.epoch:
+                outs = self.cond(tnode, st)
+                for b, s2 in outs:
+                    if b is not RAISE:
+                        s2.facts[node.id] = b         # the local keeps that value until it is re-assigned, whatever happens to the lists afterwards
+                return outs
         if isinstance(node, ast.Name) and st.env.get(node.id, ('?',))[0] in ('locallist', 'tokenlist') and node.id in st.locallen:
             # truth of a local list is `len(list) > 0`
             test = ast.copy_location(ast.Compare(left=ast.Call(func=ast.Name(id='len', ctx=ast.Load()), args=[ast.Name(id=node.id, ctx=ast.Load())], keywords=[]),
@@ -1389,6 +1397,19 @@ class Explorer:
                 targets = n.targets if isinstance(n, ast.Assign) else [n.target]
                 for t in targets:
                     self.assign_target(t, v, s, n)
+                # a local that holds the outcome of a pure test (`space_left = len(self.items) < self.capacity`): testing the local later is testing
+                # that expression, as long as nothing it reads has changed in between (remembered with the list versions at this point)
+                if len(targets) == 1 and isinstance(targets[0], ast.Name) and isinstance(n.value, (ast.Compare, ast.BoolOp)) and self.is_pure_test(n.value) \
+                        and not any(isinstance(x, ast.Name) and x.id == targets[0].id for x in ast.walk(n.value)) \
+                        and any(isinstance(x, ast.Call) and isinstance(x.func, ast.Name) and x.func.id == 'len' for x in ast.walk(n.value)):
+                    # (a length test: decided here, where the lists are as the test saw them; the local then is that boolean)
+                    for b, s2 in self.cond(n.value, s):
+                        if b is RAISE:
+                            res.append((s2, self.raise_status(s2)))
+                            continue
+                        s2.env[targets[0].id] = ('const', bool(b))
+                        res.append((s2, 'normal'))
+                    continue
                 res.append((s, 'normal'))
             return res
         if isinstance(n, ast.AugAssign):
